@@ -325,7 +325,7 @@ def _tlm_chunk(cfgs) -> dict:
 # whole circuits: Circuit.to_sympy(substitute=True) vs get_impedances
 
 CIRCUIT_PALETTE = [
-    G.entry("R", {"R": 120.0}, name="R"), G.entry("R", {"R": 75.0}, label="ct", name="R:ct"), G.entry("C", {"C": 3e-5}, name="C"),
+    G.entry("R", {"R": 120.0}, name="R"), G.entry("R", {"R": 75.0}, label="ct", name="R:ct"), G.entry("R", {"R": 1e-9}, name="R:tiny"), G.entry("C", {"C": 3e-5}, name="C"),
     G.entry("C", {"C": 8e-6}, label="dl", name="C:dl"), G.entry("Q", {"Y": 4e-4, "n": 0.7}, name="Q"),
     G.entry("L", {"L": 2e-3}, name="L"), G.entry("W", {"Y": 5e-3}, name="W"), G.entry("Tlm", {}, name="Tlm"),
     G.entry("Zarc", {"R": 50.0, "tau": 1e-2, "n": 0.85}, name="Zarc"), G.entry("Ls", {"R_i": 4.0, "R_r": 2.5, "Y": 0.02, "n": 0.9, "d": 0.3}, name="Ls"),
@@ -638,7 +638,7 @@ def run(ctx) -> None:
                 "for K/Ky, negative values; exponents {0.25,0.5,0.8,1} quick / 6 values thorough) x 16 (46) log-spaced frequencies in "
                 "1e-6..1e9 Hz, numeric vs documented equation with 50-digit adjudication and a conditioning filter; every k-th grid "
                 "point also through to_sympy(substitute=True); all 36 open/short/finite configurations of the general transmission line x "
-                "sub-circuit contents x L, numeric vs symbolic; every skeleton <= 3 leaves over a 10-entry palette (two entries labelled), Circuit.to_sympy "
+                "sub-circuit contents x L, numeric vs symbolic; every skeleton <= 3 leaves over an 11-entry palette (two entries labelled, one nano-ohm resistor), Circuit.to_sympy "
                 "(substitute=True) vs numeric; reported limits at 0 and inf vs converged finite-frequency values (single elements: value sequences; "
                 "whole circuits (some elements labelled): frequency vectors mixing 0, inf and finite frequencies in all 6 orders and with repeats; every sequence of 4 (5) operations from {evaluate at 0, at inf, at [0,1,inf]; set_values on one of three nested "
                 "elements} vs the converged finite-frequency values of a circuit built with the current parameters). Non-trivial = parameter "
